@@ -19,7 +19,7 @@ N = {"quick": (90, 30, 24, 8, 260), "thorough": (2200, 700, 400, 60, 3000)}
 
 ALL_FEATURES = ["extend", "wextend", "project", "select_rows", "select_columns", "drop_columns", "rename_columns", "map_columns",
                 "order_rows", "natural_join", "concat_rows"]
-ROUTES = ["rshift", "call", "arrow", "replace_leaves", "eval_map", "frame"]
+ROUTES = ["rshift", "call", "arrow", "replace_leaves", "eval_map", "dict_rshift", "frame"]
 
 
 # ------------------------------------------------------------------------------------------- problems (JSON-able)
@@ -119,7 +119,7 @@ def route_results(r, routes=ROUTES):
     single_a = len(r.a_tables) == 1
     for name in routes:
         if name == "rshift":
-            if single_b or a.node_name == "TableDescription":
+            if single_b or (a.node_name == "TableDescription" and a.key == leaf):
                 run(name, lambda: (a >> b).eval(fr))
             else:
                 out[name] = ("n/a", "b has several tables and a is not a table")
@@ -145,6 +145,8 @@ def route_results(r, routes=ROUTES):
                         m[k] = TableDescription(table_name=k, column_names=[c for c, _ in r.tables[k]["spec"]])
                 return b.eval(m).eval(fr)
             run(name, f)
+        elif name == "dict_rshift":
+            run(name, lambda: ({leaf: a} >> b).eval(fr))      # b.__rrshift__(dict) -> act_on(dict of pipelines) -> replace_leaves
         elif name == "frame":
             if single_a and single_b:
                 run(name, lambda: fr[r.a_tables[0]] >> a >> b)
@@ -291,12 +293,20 @@ def frame_rows(df):
     return [list(x) for x in rows]
 
 
-def gen_steps(rng, g, leafname, depth, *, del_rate=0.15):
-    """random chain on the table leafname; map_columns steps with deletions are added here (pipes never draws them)"""
+def gen_steps(rng, g, leafname, depth, *, del_rate=0.15, p1_rate=0.06):
+    """random chain on the table leafname; map_columns steps with deletions and whole-table windows (partition_by=1)
+    are added here (pipes draws the former never and the latter rarely)"""
     s, colty, order = g.table(leafname)
     n = tries = 0
     while n < depth and tries < depth * 6:
         tries += 1
+        if rng.random() < p1_rate:
+            k = g.newcol(colty)
+            nums = [c for c, t in colty.items() if t in ("int", "float")]
+            e = rng.choice(["_size()", "_size()", "(1).sum()"] + ([rng.choice(nums) + ".max()"] if nums else []))
+            s, colty, order = {"op": "extend", "src": s, "ops": {k: e}, "partition_by": 1}, dict(colty, **{k: "float"}), order + [k]
+            n += 1
+            continue
         if len(order) >= 2 and rng.random() < del_rate:
             dels = rng.sample(order, rng.randint(1, min(2, len(order) - 1)))
             keep = [c for c in order if c not in dels]
@@ -326,7 +336,7 @@ def typed_leaf(name, cols, colty, frame):
     return {"name": name, "spec": [[c, colty.get(c, "float")] for c in cols], "rows": rows}
 
 
-def gen_problem(rng, *, triple=False, e_mode="same", features=None, depth_b=None):
+def gen_problem(rng, *, triple=False, e_mode="same", features=None, depth_b=None, del_rate=0.15, p1_rate=0.06):
     import pipes
     feats = features or ALL_FEATURES
     tables = [pipes.gen_table(rng, "d1", unique_col="uid"), pipes.gen_table(rng, "d2", unique_col="uid")]
@@ -346,7 +356,7 @@ def gen_problem(rng, *, triple=False, e_mode="same", features=None, depth_b=None
     et = typed_leaf(leaf, acols, acolty, ra)
     btables = [et] + ([tables[1]] if rng.random() < 0.45 else [])
     gb = pipes.Gen(rng, btables, features=feats)
-    b, bcolty, border = gen_steps(rng, gb, leaf, depth_b or rng.choice([1, 1, 2, 3, 4, 5]))
+    b, bcolty, border = gen_steps(rng, gb, leaf, depth_b or rng.choice([1, 1, 2, 3, 4, 5]), del_rate=del_rate, p1_rate=p1_rate)
     if b["op"] == "table":
         return None
     p = {"tables": pipes.to_json(tables), "a": pipes.to_json(a), "b": pipes.to_json(b), "leaf": leaf, "e_mode": e_mode, "c": None}
@@ -426,18 +436,26 @@ def describe(p):
         return {"error": repr(e)}
 
 
+def cause_of(f):
+    """coarse root-cause key of a failure: oracle + the message without route, names and values"""
+    import re
+    w = f["what"].split(":", 1)[1] if ":" in f["what"] else f["what"]
+    w = re.sub(r"\[[^\]]*\]|\{[^}]*\}|'[^']*'|\d+(\.\d+)?", "_", w)
+    w = re.sub(r"row _ column \S+", "row _ column _", w)
+    return f["oracle"] + "|" + w.strip()[:70]
+
+
 def report(chk, p, fails):
-    seen = set()
+    """one replay per distinct root cause (repeats are counted in the distribution), shrunk before it is reported"""
+    causes = chk.__dict__.setdefault("c07_causes", {})
     for f in fails:
         sig = {"oracle": f["oracle"], "route": f["route"]}
-        key = (f["oracle"], f["route"])
-        if key in seen:
+        key = cause_of(f)
+        if key in causes:
+            causes[key] += 1
+            chk.dist("violation repeated: " + key)
             continue
-        seen.add(key)
-        if sum(1 for v in chk.violations if v[2]) >= 6:       # enough evidence; do not spend the budget on shrinking more
-            chk.dist("violation_not_shrunk")
-            chk.impl_violation(f["what"], {"kind": "impl-violation", "problem": p, "failure": f}, dict(sig, ops=sorted(problem_kinds(p))))
-            continue
+        causes[key] = 1
         try:
             q = shrink_problem(p, sig)
             rr = check_problem(q)
@@ -582,16 +600,16 @@ def spy_term(node):
             for v in (on or []):
                 pairs.append((v, v) if isinstance(v, str) else (list(v)[0], list(v)[1]))
             jt = JT.get(str(a["jointype"]).upper())
-            if isinstance(other, tuple) and other[0] == "result" and jt is not None:
-                o = "(Some (%d%%nat, %d%%nat, %s, %s))" % (obs[0], other[1], c_pairs(pairs), jt)
+            if isinstance(other, Recv) and jt is not None:
+                o = "(Some (%d%%nat, %d%%nat, %s, %s))" % (obs[0], other.da_tag, c_pairs(pairs), jt)
         t = "FwJoin %s %s %s %s" % (sl(node.on_a), sl(node.on_b), JT[node.jointype], o)
     elif nm == "ConcatRowsNode":
         o = "None"
         if got("concat_rows"):
             a = obs[2]
             other = a["b"]
-            if isinstance(other, tuple) and other[0] == "result":
-                o = "(Some (%d%%nat, %d%%nat, %s, %s, %s))" % (obs[0], other[1], copt(None if a["id_column"] is None else cstr(a["id_column"])), cstr(a["a_name"]), cstr(a["b_name"]))
+            if isinstance(other, Recv):
+                o = "(Some (%d%%nat, %d%%nat, %s, %s, %s))" % (obs[0], other.da_tag, copt(None if a["id_column"] is None else cstr(a["id_column"])), cstr(a["a_name"]), cstr(a["b_name"]))
         t = "FwConcat %s %s %s %s" % (copt(None if node.id_column is None else cstr(node.id_column)), cstr(node.a_name), cstr(node.b_name), o)
     else:
         return None, desc
@@ -700,6 +718,54 @@ PRE = ("From Coq Require Import List Bool ZArith QArith String.\nImport ListNota
        "From DA Require Import Base.PyRT Base.Cases Base.Val Model.Sem Model.SemCases Model.Compose Model.ComposeCases.\nOpen Scope list_scope.\n")
 
 
+def run_cases(name, terms, per_file=120, timeout=1200):
+    """like lib.run_case_files, but one coqc start per file answers both questions (failing cases, simplified compositions):
+    -> (failing indices, structurally different indices, errors, number checked)"""
+    import re, subprocess, time
+    cdir = os.path.join(lib.COQ, "cases")
+    os.makedirs(cdir, exist_ok=True)
+    files = []
+    for k in range(0, max(1, (len(terms) + per_file - 1) // per_file)):
+        chunk = terms[k * per_file:(k + 1) * per_file]
+        fn = os.path.join(cdir, f"{name}_{k}.v")
+        with open(fn, "w") as f:
+            f.write(PRE + "\nDefinition cases : list c07case := [\n" + ";\n".join(chunk) + "\n].\n")
+            f.write("Eval vm_compute in check_cases cases.\nEval vm_compute in check_structural cases.\nEval vm_compute in List.length cases.\n")
+        files.append(fn)
+    procs = [subprocess.Popen(["coqc", "-Q", "theories", "DA", "-Q", "cases", "DAcases", os.path.relpath(fn, lib.COQ)], cwd=lib.COQ,
+                              stdout=subprocess.PIPE, stderr=subprocess.STDOUT, text=True, env=lib.ENV) for fn in files]
+    failing, simplified, errors, nchecked = [], [], [], 0
+    t0 = time.time()
+    for k, pr in enumerate(procs):
+        try:
+            out, _ = pr.communicate(timeout=max(1, timeout - (time.time() - t0)))
+            rc = pr.returncode
+        except subprocess.TimeoutExpired:
+            pr.kill()
+            out, rc = "TIMEOUT", 124
+        out = "\n".join(l for l in out.splitlines() if "conda" not in l)
+        flat = " ".join(out.split())
+        lists = re.findall(r"= (\[[^\]]*\]|nil)\s*: list nat", flat)
+        m2 = re.search(r"= (\d+)(?:%nat)?\s*: nat", flat)
+        if rc != 0 or len(lists) != 2 or not m2:
+            errors.append(f"{os.path.basename(files[k])}: rc={rc}\n{out[-2000:]}")
+            continue
+        nchecked += int(m2.group(1))
+        failing += [k * per_file + int(i) for i in re.findall(r"\d+", lists[0])]
+        simplified += [k * per_file + int(i) for i in re.findall(r"\d+", lists[1])]
+    for fn in files:
+        for ext in (".v", ".vo", ".vok", ".vos", ".glob"):
+            try:
+                os.remove(fn[:-2] + ext)
+            except OSError:
+                pass
+        try:
+            os.remove(os.path.join(os.path.dirname(fn), "." + os.path.basename(fn)[:-2] + ".aux"))
+        except OSError:
+            pass
+    return failing, simplified, errors, nchecked
+
+
 # ------------------------------------------------------------------------------------------- the run
 
 def run_problems(chk, problems, terms, meta, tag):
@@ -763,8 +829,19 @@ def corpus_problems():
 
 def run(chk):
     import pipes
+    import time
     n_pairs, n_triples, n_mis, n_spy, n_extra = N[chk.tier]
-    chk.prove([], extra_vo=["theories/Model/ComposeCases.vo"])
+    t0 = time.time()
+    n0 = len(getattr(chk, "pending_breaks", []))
+    if not chk.prove([], extra_vo=["theories/Model/ComposeCases.vo"]):
+        # several agents build in /verif/coq at once; a genuine proof break is deterministic, so one retry cannot hide it
+        first = [b["what"] for b in getattr(chk, "pending_breaks", [])[n0:]]
+        chk.pending_breaks = getattr(chk, "pending_breaks", [])[:n0]
+        time.sleep(5)
+        chk.prove([], extra_vo=["theories/Model/ComposeCases.vo"])
+        chk.cov["prove_retried_after"] = first[:2]
+    timing = {"prove_s": round(time.time() - t0, 1)}
+    chk.cov["timing"] = timing
     chk.cov["trusted_base"] = [
         "Coq 8.16.1 kernel + vm_compute",
         "Model/Sem.v: reference semantics of the operators (shared; validated against the executors by its own correspondence)",
@@ -780,8 +857,10 @@ def run(chk):
     chk.assumptions = [
         "built_ok: ExtendNode.windowed_situation covers what operators/partition/order imply; NaturalJoinNode has len(on_a) == len(on_b) (checked on every real tree of the correspondence)",
         "column names of a node are unique (ViewRepresentation.__init__ asserts it): nodupb hypotheses",
-        "exact equality of tables needs the leaf to declare the replacement's columns in the same ORDER; under the set test of act_on / DataOpArrow.act_on "
-        "equality holds up to column order only (C07_set_boundary_exact_equality_refuted); the oracle compares modulo column order",
+        "exact equality of tables needs the leaf to declare the replacement's columns in the same ORDER (boundary_ok); under the set test of act_on / "
+        "DataOpArrow.act_on (boundary_sets_ok) the theorem is equality up to column order (otab_eqv), and exact equality is refuted by a witness; the oracle compares modulo column order",
+        "renames_okb: no rename_columns / map_columns step merges two input columns (checked on every real tree of the correspondence); Sem's map_columns = rename, then delete, "
+        "which is the implementation's meaning as long as no new name equals a deleted column (the generator never draws that)",
         "associativity with checks (C07_rshift_assoc) is stated for single-table pipelines b and c",
     ]
     chk.cov["rule"] = ("pairs (a, b) and triples (a, b, c) of random pipelines from harness/pipes.py over ALL operator kinds plus map_columns with deletions; b's (c's) leaf "
@@ -840,18 +919,22 @@ def run(chk):
         if p is not None:
             problems.append(p)
             k += 1
+    t1 = time.time()
     run_problems(chk, problems, terms, meta, "pair")
+    timing["oracle_s"] = round(time.time() - t1, 1)
+    t2 = time.time()
 
     # (3) correspondence inside Coq
     if os.path.exists(os.path.join(lib.COQ, "theories/Model/ComposeCases.vo")):
-        failing, errors, nchecked = lib.run_case_files("C07", PRE, terms, "check_cases", per_file=40, timeout=1200)
+        failing, simp, errors, nchecked = run_cases("C07", terms, per_file=max(40, (len(terms) + 11) // 12))
+        errors2 = []
         comp_idx = [i for i, m in enumerate(meta) if m.get("kind") == "composition"]
-        simp, errors2, _ = lib.run_case_files("C07s", PRE, [terms[i] for i in comp_idx], "check_structural", per_file=60, timeout=600)
         chk.cov["correspondence"] = {"what": "recorded builder calls vs fw_code; real composed DAGs vs replace_leaves / rshift; DataOpArrow composition vs arrow_rshift; name set",
                                      "cases": len(terms), "checked_in_coq": nchecked, "disagreements": len(failing),
                                      "forwarding_cases": nspy, "composition_cases": len(comp_idx), "arrow_cases": sum(1 for m in meta if m.get("kind") == "arrow"),
                                      "simplified_by_builder": len(simp), "errors": (errors + errors2)[:2]}
         chk.cov["traces_validated_against_impl"] = nchecked
+        timing["coq_cases_s"] = round(time.time() - t2, 1)
         if errors or errors2:
             chk.corr_break("correspondence case files failed to compile", (errors + errors2)[0])
         broken_kinds = set()
@@ -861,12 +944,12 @@ def run(chk):
             chk.corr_break(f"Model/Compose.v disagrees with the implementation ({meta[i].get('kind')}: {meta[i].get('node') or meta[i].get('route') or ''})", m)
         for i in failing:
             broken_kinds.add(meta[i].get("node") or meta[i].get("kind"))
-        # (4) a break without a failing input so far: search harder, biased to the disagreeing node kinds
-        if (failing or getattr(chk, "pending_breaks", None)) and not any(v[2] for v in chk.violations) and not chk.known_hits:
-            extra_search(chk, broken_kinds, n_extra)
+        # (4) a break is not a violation: search for a failing input, biased to the disagreeing node kinds
+        if failing or getattr(chk, "pending_breaks", None):
+            extra_search(chk, sorted(k for k in broken_kinds if k), n_extra)
     else:
         chk.corr_break("Model/ComposeCases.vo not built", "")
-        extra_search(chk, set(), n_extra)
+        extra_search(chk, [], n_extra)
 
 
 BIAS = {"ExtendNode": ["extend", "wextend", "wextend"], "ProjectNode": ["project"], "SelectRowsNode": ["select_rows"], "SelectColumnsNode": ["select_columns"],
@@ -875,22 +958,25 @@ BIAS = {"ExtendNode": ["extend", "wextend", "wextend"], "ProjectNode": ["project
 
 
 def extra_search(chk, kinds, n):
-    feats = list(ALL_FEATURES)
-    for k in kinds:
-        feats += BIAS.get(k, []) * 6
-    found = 0
-    for i in range(n):
-        if found >= 2:
-            break
-        mode = "same" if i % 5 else chk.rng.choice(["drop_last", "add_extra"])
-        p = gen_problem(chk.rng, features=feats, e_mode=mode, triple=(i % 4 == 3), depth_b=chk.rng.choice([1, 2, 3]))
-        if p is None:
-            continue
-        res = check_problem(p)
-        chk.dist("extra_search:" + res[0])
-        if res[0] == "checked" and res[1]:
-            report(chk, p, res[1])
-            found += 1
+    """a model/implementation disagreement is not yet a violation: look for a concrete failing input, biased towards
+    pipelines b that contain the node kinds whose replace_leaves disagrees"""
+    kinds = [k for k in kinds if k in BIAS] or [None]
+    per = max(20, n // len(kinds))
+    for kind in kinds:
+        feats = list(ALL_FEATURES) + (BIAS[kind] * 8 if kind else [])
+        before = len(chk.__dict__.get("c07_causes", {}))
+        for i in range(per):
+            mode = "same" if (i % 5 or kind) else chk.rng.choice(["drop_last", "add_extra"])
+            p = gen_problem(chk.rng, features=feats, e_mode=mode, triple=(i % 4 == 3 and not kind), depth_b=chk.rng.choice([1, 2, 3]),
+                            del_rate=0.5 if kind == "MapColumnsNode" else 0.15, p1_rate=0.4 if kind == "ExtendNode" else 0.06)
+            if p is None:
+                continue
+            res = check_problem(p)
+            chk.dist("extra_search:" + res[0])
+            if res[0] == "checked" and res[1]:
+                report(chk, p, res[1])
+                if len(chk.__dict__.get("c07_causes", {})) > before + 1:
+                    break
 
 
 def replay(path):
